@@ -21,15 +21,61 @@ Facets
                                  scaled by 1e+-30
   long_schedules                 T 5..40 with the schedules real trajectories have: powers of two, LAMMPS logarithmic
                                  blocks (first gaps equal, later ones not), logfreq(a,n,b), linear-then-log, even except
-                                 the last / the first / one middle gap, two rates, alternating gaps, and even controls
+                                 the last / the first / one middle gap, two rates, alternating gaps, and even controls;
+                                 (round 3) decaying-series: |A| falling by 10^-0.25 .. 10^-1 per frame, every lag accurate
+                                 relative to the size of its own frame-pair products
+
+  argument_forms (round 3)       the same numbers in the other representations callers hold them in: snapshot.timestep as
+                                 Python int (LAMMPS readers) / np.int64 / np.uint64 (GSD reader) / np.int32, dt omitted /
+                                 Python int / np.int64 / np.float64 / np.float32 / float; schedules of frames that only
+                                 "all successive differences equal" classifies correctly: endpoint-consistent (uneven, but
+                                 last - first = (T-1) x first gap and first gap = last gap), restart (a second run whose
+                                 timesteps start again), duplicate-frame, checkpoint-rewind
+  large_sizes (round 3)          sizes of real use: scalar / vector N 20..400, d 1..8, T up to 64 and 129..200; tensor N 8..48,
+                                 d 1..5, T up to 32; values N(0, 9) / uniform [0, 1) (docs example) / 1 +- 1 % / multiples
+                                 of 1/8, built from a drawn seed; Gram-matrix reference (one T x T matrix product)
+  deep_sizes (thorough only)     scalar / vector N up to 3000, T up to 400; tensor N up to 150, T up to 48
+
+CLAUSES (round 3 audit: clause / axis of the statement and quantifier -> facet, deciding assertion, populated class tags)
+  1 "per-particle scalar, vector or tensor series"       every facet: _compare(c, want) at every lag, both directions;
+       scalar / vector / tensor, d1..d4 (d-odd / d-even), tensor-general / -symmetric / -traceless-symmetric / -hermitian /
+       -near-antisymmetric; (NEW) d5..d8 for vectors, d4, d5 for tensors, N7-31 .. N128-511 in large_sizes
+       (WAS: N <= 6, d <= 4 / 3: size-gated paths -- 8-bit origin counts, blocks of 128 particles, a single-precision
+       path for big inputs -- were out of reach)
+  2 "(real or complex)"                                  real / complex; float32 / complex64 in repeat_calls;
+       edge:purely-imaginary, edge:real-stored-as-complex.  Integer series are NOT generated: docs say "type should be
+       float", and an integer scalar series with uneven spacing raises on the unchanged tree (reported, not asserted)
+  3 "evenly spaced frames give, at lag k, the average over all origins"   even_spacing, long_schedules, large_sizes:
+       reference with T-k origins per lag; T1..T40, (NEW) T41-128, T129-256; discriminates-origin-rule counts the cases
+       whose expected table differs from the other rule's
+  4 "real part of the particle-summed product of the value at the later time with the conjugate of the value at the
+     earlier time"                                       reference (einsum / Gram matrix) + analytic_phase closed form
+       cos(phi (ts_k - ts_0)); phi<0 / phi>0; tensors: trace of the matrix product (non-symmetric classes above)
+  5 "divided by its lag-zero value"                      same comparison; C0>0 / C0<0, some-lag-above-1
+  6 "unevenly spaced frames give the same with the first frame as the only origin"    uneven_spacing, long_schedules,
+       argument_forms; pattern-* tags; (NEW) pattern-endpoint-consistent, pattern-restart, pattern-duplicate-frame,
+       pattern-checkpoint-rewind, non-monotonic (WAS: strictly increasing schedules only)
+  7 "The time axis is the frame time relative to the first frame times the time step"   _invoke: close(t, (ts-ts0)*dt)
+       and (NEW) t[0] == 0 exactly; t0=0 / t0>0 / t0>=2^31-1 / crosses-2^31, dt-default / dt-given, edge:dt<=1e-9,
+       edge:dt>=100, (NEW) dt-type-int / -int64 / -float32 / -float64, timestep-type-np.int64 / -np.uint64 / -np.int32,
+       negative relative times (non-monotonic)
+  8 "the value at lag zero is exactly one"               _invoke: c[0] == 1.0 (bit-exact), every call of every facet
+  9 "all frame counts T >= 1"                            T1, T2 (edge:T=1, edge:T=2), T-odd / T-even
+ 10 "histories" (quantifier.over)                        repeat_calls (same-array-new-contents, same-snapshots-even<->uneven,
+       same-arguments-twice, layouts)
+ 11 observe_at "DataFrame (t, time_corr)" + outputfile   columns, length T, real dtype, finite; csv-* / no-file:* tags
+  Not asserted: which factor carries the conjugate (unobservable after taking the real part); float16 / longdouble
+  series; condition given as a list (no .shape) or outputfile as a Path (annotation says str).
 
 Preconditions imposed by construction:
   * condition is an ndarray of shape (T, N), (T, N, d) or (T, N, d, d) with T = number of snapshots and N = nparticle;
     dtype float64 / complex128 everywhere, float32 / complex64 only in repeat_calls (docs: "npt.NDArray ... type should
     be float"; the code comments add "or complex-number"; bool / int must be converted by the caller and lists have no
     .shape, so neither is generated)
-  * timesteps strictly increasing integers below 2^53; "unevenly spaced" = at least two different successive
-    differences (T >= 3)
+  * timesteps are integers below 2^53, strictly increasing everywhere except in the argument_forms schedules restart /
+    duplicate-frame / checkpoint-rewind (concatenated runs); "unevenly spaced" = at least two different successive
+    differences (T >= 3), whatever their sign; np.uint64 timesteps only with non-decreasing schedules, np.int32 only
+    while (max - min) x integer dt stays below 2^31
   * the lag-zero value C(0) is bounded away from zero: |C(0)| >= 0.05 * (sum of absolute values of its terms).
     For scalars and vectors C(0) = mean sum |A|^2 and one entry of frame 0 has modulus >= 0.5; general tensors whose
     tr(A.conj(A)) nearly cancels are replaced by their symmetric part (time_corr.py L101 divides by results[0]).
@@ -38,6 +84,8 @@ Preconditions imposed by construction:
 Tolerances (DESIGN 1.4):
   * float64 recomputation of sums of <= 54 products averaged over <= 40 origins: |dC_k| <= ~2e-14 * S_k with S_k the
     mean sum of absolute values; result = C_k / C_0, hence atol_k = 1e-13 (S_k + |C_k/C_0| S_0) / |C_0| plus rtol 1e-10.
+    large_sizes / deep_sizes: n products per frame pair, T - k origins, in the library and in the reference: the factor
+    1e-13 becomes max(1e-13, 2 (n + T + 6) eps) (first-order bound for any summation order).
   * float32 / complex64 input: the values are exactly representable in float64, so the reference value is that of the
     definition applied to the very numbers passed; the library may legitimately do the arithmetic in single precision
     (unit round-off u = 2^-24): n products + n-1 additions + averaging over T origins give <= (n + T + 6) u S_k;
@@ -74,11 +122,16 @@ RULE = ("per-particle series of shape (T,N), (T,N,d), (T,N,d,d) (d 1..4 / 1..3),
         "3..7 calls sharing array / Snapshots objects, all memory layouts, float32/complex64; non-trivial = two "
         "successive calls whose expected tables differ. edge_sizes: T 1..5, N 1..3, extreme t0 / dt, degenerate "
         "contents; non-trivial = at least two edge classes at once. long_schedules: T 5..40, realistic log / "
-        "nearly-even schedules; non-trivial as for even/uneven_spacing")
+        "nearly-even schedules; non-trivial as for even/uneven_spacing. argument_forms: T 1..10, timesteps as Python / "
+        "numpy (int64, uint64, int32) integers, dt as int / numpy scalars / omitted, endpoint-consistent and non-monotonic "
+        "(restart, duplicate frame, checkpoint rewind) schedules. large_sizes: N 20..400 (tensor 8..48), T up to 200 (32), "
+        "d up to 8 (5), seed-built values; deep_sizes (thorough): N up to 3000, T up to 400")
 ASSUMPTIONS = [
     "condition is an ndarray of dtype float64 or complex128 (float32 / complex64 in repeat_calls only, compared at "
     "single-precision tolerance), shape (T, N[, d[, d]]) matching the snapshots; lists / ints / bools are not generated",
-    "timesteps strictly increasing integers; evenly spaced = all successive differences equal",
+    "timesteps are integers (Python or numpy, signed or unsigned); evenly spaced = all successive differences equal; "
+    "schedules that repeat or go back (concatenated runs) are unevenly spaced and their time axis may be negative",
+    "dt is a positive number in any numeric representation (float, int, numpy scalar)",
     "lag-zero value bounded away from 0 by construction (|C(0)| >= 0.05 x absolute term sum); its sign is free",
     "tensor product = trace of the matrix product A(later) . conj(A(earlier)) (DESIGN C14)",
     "a call must not modify the caller's condition array: the property quantifies over histories, and a call that "
@@ -94,13 +147,22 @@ def _cell(d=2):
     return {"d": d, "kind": "ortho", "H": np.diag([10.0] * d), "lo": np.zeros(d), "origin": "zero"}
 
 
-def _snapshots(ts, N):
+_TS_TYPES = {"np.int64": np.int64, "np.uint64": np.uint64, "np.int32": np.int32}
+
+
+def _snapshots(ts, N, ts_repr="int"):
+    """Frames carrying the timesteps `ts`.  ts_repr: the type of snapshot.timestep -- a Python int (LAMMPS readers:
+    int(f.readline())) or a numpy integer scalar (the GSD reader stores frame.configuration.step as it comes)."""
     from PyMatterSim.reader.reader_utils import Snapshots
 
     cell = _cell()
     pos = np.zeros((N, 2))
     types = np.ones(N, dtype=int)
     snaps = [gen.snapshot_from(cell, pos, types, t) for t in ts]
+    if ts_repr != "int":
+        import dataclasses
+
+        snaps = [dataclasses.replace(sn, timestep=_TS_TYPES[ts_repr](t)) for sn, t in zip(snaps, ts)]
     return Snapshots(nsnapshots=len(snaps), snapshots=snaps)
 
 
@@ -417,8 +479,164 @@ def long_case(draw):
     tkind = draw(st.sampled_from(["general", "general", "symmetric"])) if rank == "tensor" else ""
     A = draw(content_st(rank, cplx, shape, tkind=tkind or "general"))
     ts, pat = draw(long_schedule_st(T))
+    more = []
+    if draw(st.integers(0, 3)) == 0:
+        # dynamic range (round 3): a relaxing quantity, |A| falling by 10^-dec per frame.  Each lag is a sum of products of
+        # ITS frame pairs, accurate relative to their size S_k -- not relative to the lag-zero power (a transform-based
+        # autocorrelation has an absolute error eps x S_0 at every lag)
+        dec = draw(st.sampled_from([0.25, 0.5, 1.0]))
+        A = A * (10.0 ** (-dec * np.arange(T))).reshape((-1,) + (1,) * (A.ndim - 1))
+        more.append("decaying-series")
     return {"A": A, "ts": ts, "dt": draw(st.one_of(st.none(), nice_float(0.0005, 10.0))), "rank": rank, "cplx": cplx,
-            "tkind": tkind, "pattern": pat, "outfile": draw(st.integers(0, 3)) == 0, "long": True}
+            "tkind": tkind, "pattern": pat, "outfile": draw(st.integers(0, 3)) == 0, "long": True, "more_tags": more}
+
+
+# ----------------------------------------------------------------------------- generators of round 3
+
+_FORM_PATTERNS = ["even", "uneven-random", "endpoint-consistent", "endpoint-consistent", "restart", "duplicate-frame",
+                  "checkpoint-rewind"]
+
+
+@st.composite
+def form_schedule_st(draw, T):
+    """Schedules that a detection of even spacing other than "all successive differences equal" gets wrong:
+      endpoint-consistent  uneven, but last - first = (T-1) * first gap (= the mean gap equals the first gap), and the
+                           first and the last gap are equal as well
+      restart              a second run appended whose timesteps start again at the first timestep (t0, t0+g, ..., t0, ...)
+      duplicate-frame      a continuation run that writes its first frame at the last timestep of the previous run
+      checkpoint-rewind    a continuation from an earlier checkpoint: timesteps go back by one or two gaps
+    The statement covers them: frames whose successive differences are not all equal are unevenly spaced (first frame
+    is the only origin) and the time axis is the frame time relative to the first frame, whatever its sign."""
+    pat = draw(st.sampled_from(_FORM_PATTERNS))
+    t0 = draw(st.sampled_from([0, 0, 1, 1000, 10 ** 6, 10 ** 9, 3 * 10 ** 9]))
+    g = draw(st.sampled_from([1, 2, 5, 10, 100, 1000, 5000]))
+    n = T - 1
+    if pat == "endpoint-consistent" and n >= 4 and g >= 2:
+        gaps = [g] * n
+        i, j = draw(st.permutations(range(1, n - 1)))[:2]  # first and last gap stay equal to g
+        e = draw(st.integers(1, g - 1))
+        gaps[i] += e
+        gaps[j] -= e
+        return _cumulate(t0, gaps), pat
+    if pat == "restart" and T >= 3:
+        m = draw(st.integers(2, T - 1))  # frames of the first run
+        return [t0 + g * (k if k < m else k - m) for k in range(T)], pat
+    if pat == "duplicate-frame" and T >= 3:
+        m = draw(st.integers(1, T - 2))
+        return [t0 + g * (k if k <= m else k - 1) for k in range(T)], pat
+    if pat == "checkpoint-rewind" and T >= 4:
+        m = draw(st.integers(2, T - 2))
+        back = draw(st.integers(2, min(3, m + 1)))
+        return [t0 + g * (k if k <= m else k - back) for k in range(T)], pat
+    if pat == "even" or T <= 2:
+        return [t0 + g * k for k in range(T)], "even"
+    gaps = [draw(st.integers(1, 3 * g)) for _ in range(n)]
+    if len(set(gaps)) == 1:
+        gaps[-1] += 1
+    return _cumulate(t0, gaps), "uneven-random"
+
+
+_DT_FORMS = [None, 1, 2, 5, np.int64(3), np.float64(0.005), np.float32(0.5), np.float32(0.001953125), 0.002, 0.25]
+
+
+@st.composite
+def form_case(draw):
+    """Argument representations (EXTENSION_2 class 3) and schedules of frames (class 7)."""
+    rank = draw(st.sampled_from(["scalar", "vector", "tensor"]))
+    cplx = draw(st.booleans())
+    T = draw(st.sampled_from([1, 2, 3, 4, 5, 5, 6, 6, 7, 8, 9, 10]))
+    N = draw(st.integers(1, 5))
+    d = draw(st.integers(1, 3))
+    shape = _shape_for(rank, T, N, d)
+    tkind = draw(st.sampled_from(["general", "general", "symmetric"])) if rank == "tensor" else ""
+    A = draw(content_st(rank, cplx, shape, tkind=tkind or "general"))
+    ts, pat = draw(form_schedule_st(T))
+    dt = draw(st.sampled_from(_DT_FORMS))
+    if isinstance(dt, (np.float32, np.int64)) and ts[0] < 2 ** 24 and draw(st.booleans()):
+        # a numpy-scalar dt next to timesteps beyond the integers a float32 holds exactly (2^24)
+        off = 2 ** 24 * draw(st.sampled_from([1, 3, 64, 200]))
+        ts = [t + off for t in ts]
+    mono = all(b > a for a, b in zip(ts[:-1], ts[1:]))
+    reprs = ["int", "np.int64", "np.int64"]
+    if mono:
+        reprs += ["np.uint64", "np.uint64"]  # unsigned arithmetic is only defined for non-decreasing schedules
+    span = (max(ts) - min(ts)) * (int(dt) if isinstance(dt, (int, np.integer)) else 1)
+    if max(ts) < 2 ** 31 and span < 2 ** 31:
+        reprs += ["np.int32"]
+    return {"A": A, "ts": ts, "dt": dt, "rank": rank, "cplx": cplx, "tkind": tkind, "pattern": pat,
+            "outfile": draw(st.integers(0, 3)) == 0, "ts_repr": draw(st.sampled_from(reprs))}
+
+
+_T_SMALL, _T_MID, _T_BIG = st.integers(2, 12), st.integers(13, 64), st.integers(129, 200)
+
+
+@st.composite
+def large_case(draw, deep=False):
+    """Sizes of real use (EXTENSION_2 class 4): hundreds of particles, up to 200 frames (deep: thousands / 400), more
+    components.  The series is built in check from a Hypothesis-drawn seed (numpy Generator), not element by element."""
+    rank = draw(st.sampled_from(["scalar", "vector", "tensor"]))
+    cplx = draw(st.booleans())
+    bucket = draw(st.sampled_from(["small-T", "small-T", "mid-T", "mid-T", "big-T"]))
+    if rank == "tensor":
+        T = draw({"small-T": st.integers(2, 8), "mid-T": st.integers(9, 24 if not deep else 36),
+                  "big-T": st.integers(25, 32 if not deep else 48)}[bucket])
+        N = draw(st.integers(8, 48 if not deep else 150))
+        if T > 24:
+            N = min(N, 24 if not deep else 100)
+        d = draw(st.integers(1, 5))
+    else:
+        T = draw({"small-T": _T_SMALL, "mid-T": _T_MID,
+                  "big-T": _T_BIG if not deep else st.sampled_from([201, 255, 256, 257, 300, 399, 400])}[bucket])
+        N = draw(st.one_of(st.sampled_from([20, 63, 64, 65, 127, 128, 129, 200, 255, 256, 257, 333, 400] if not deep else
+                                           [128, 129, 500, 512, 1000, 1024, 1025, 2000, 3000]),
+                           st.integers(20, 127), st.integers(128, 400 if not deep else 3000)))
+        d = draw(st.integers(1, 8))
+    spacing = draw(st.sampled_from(["even", "even", "uneven"] if bucket == "big-T" else ["even", "uneven"]))
+    if T <= 2:
+        spacing = "even"
+    if spacing == "even":
+        t0 = draw(st.sampled_from([0, 0, 1000, 10 ** 6, 5 * 10 ** 9]))
+        g = draw(st.integers(1, 5000))
+        ts, pat = [t0 + g * k for k in range(T)], "even"
+    elif T >= 5:
+        # (power-of-two / logfreq schedules of more than ~50 frames leave the exactly representable integers: dropped)
+        ts, pat = draw(long_schedule_st(T).filter(lambda r: not tcorr.evenly_spaced(r[0]) and max(r[0]) < 2 ** 53))
+    else:
+        ts, pat = draw(timesteps_st(T, "uneven"))
+    return {"rank": rank, "cplx": cplx, "T": T, "N": N, "d": d, "seed": draw(st.integers(0, 2 ** 32 - 1)),
+            "values": draw(st.sampled_from(["normal", "uniform01", "near-constant", "eighths"])),
+            "tkind": draw(st.sampled_from(["general", "general", "symmetric"])) if rank == "tensor" else "",
+            "ts": ts, "pattern": pat, "dt": draw(st.one_of(st.none(), nice_float(0.0005, 10.0))),
+            "outfile": draw(st.integers(0, 5)) == 0, "deep": deep}
+
+
+def _large_series(case):
+    rng = np.random.default_rng(case["seed"])
+    shape = _shape_for(case["rank"], case["T"], case["N"], case["d"])
+
+    def block():
+        v = case["values"]
+        if v == "normal":
+            return rng.normal(size=shape) * 3.0
+        if v == "uniform01":  # docs/dynamics.md example: np.random.rand(nsnapshots, nparticle)
+            return rng.random(size=shape)
+        if v == "near-constant":  # e.g. a local density: 1 +- 1 %
+            return 1.0 + 0.01 * rng.normal(size=shape)
+        return rng.integers(-80, 81, size=shape) / 8.0
+
+    A = block()
+    if case["cplx"]:
+        A = A + 1j * block()
+    if case["rank"] == "tensor" and case["tkind"] == "symmetric":
+        A = (A + np.swapaxes(A, 2, 3)) / 2.0
+    idx = (0, 0) + (0,) * (len(shape) - 2)
+    if abs(A[idx]) < 0.5:
+        A[idx] = 2.0
+    if case["rank"] == "tensor":
+        c, sc = tcorr.lag_zero(A, tcorr.evenly_spaced(case["ts"]))
+        if not (sc > 0.0 and abs(c) >= 0.1 * sc):  # cancelling tr(A conj A): use the symmetric part
+            A = (A + np.swapaxes(A, 2, 3)) / 2.0
+    return A
 
 
 # ----------------------------------------------------------------------------- checks
@@ -473,9 +691,11 @@ def _invoke(snaps, cond, ts, dt=None, outputfile=None):
     c = arr("column time_corr", col("time_correlation", res, "time_corr"), shape=(T,))
     require(c.dtype.kind == "f", f"time_corr column is not real: dtype {c.dtype}")
     dtv = 0.002 if dt is None else dt
-    tmax = float(max(abs(int(ts[0])), abs(int(ts[-1]))))
+    tmax = float(max(abs(int(x)) for x in ts))
     close("time axis (timestep - first timestep) * dt", t, tcorr.time_axis(ts, dtv), rtol=1e-12,
-          atol=4 * EPS * tmax * abs(dtv))
+          atol=4 * EPS * tmax * abs(float(dtv)))
+    # "relative to the first frame": x - x and x*dt - x*dt are exactly 0 in IEEE arithmetic for every finite x
+    require(t[0] == 0.0, lambda: f"time axis starts at {t[0]!r}, not at 0 (frame time relative to the first frame)")
     require(np.all(np.isfinite(c)), lambda: f"non-finite correlation values {c.tolist()}")
     require(c[0] == 1.0, lambda: f"lag-zero value is {c[0]!r}, not exactly 1")
     created = _listing() - before
@@ -490,7 +710,7 @@ def _invoke(snaps, cond, ts, dt=None, outputfile=None):
 
 
 def _call(case, A, ts):
-    snaps = _snapshots(ts, A.shape[1])
+    snaps = _snapshots(ts, A.shape[1], case.get("ts_repr", "int"))
     out = case.get("outfile")
     if out is True:
         out = "tc.csv"
@@ -512,27 +732,32 @@ def _compare(name, got, want, atol, rtol=1e-10):
                         f"got {got.tolist()} want {want.tolist()}")
 
 
-def check_series(case):
-    A, ts = case["A"], case["ts"]
+def check_series(case, A=None, unnormalised=tcorr.unnormalised, factor=1e-13):
+    A = case["A"] if A is None else A
+    ts = case["ts"]
     T = len(ts)
     even = tcorr.evenly_spaced(ts)
     t, c = _call(case, A, ts)
-    C, S = tcorr.unnormalised(A, even)
+    C, S = unnormalised(A, even)
     if not (abs(C[0]) >= 0.05 * S[0] and S[0] > 0):
         raise RuntimeError("harness: ill-conditioned normaliser generated")  # generator bug, not a finding
     want = C / C[0]
-    atol = 1e-13 * (S + np.abs(want) * S[0]) / abs(C[0]) + TINY
+    atol = factor * (S + np.abs(want) * S[0]) / abs(C[0]) + TINY
     _compare(f"time_corr ({case['rank']}, {'complex' if case['cplx'] else 'real'}, "
              f"{'even: all origins' if even else 'uneven: first frame only'})", c, want, atol)
     # does the case tell the two definitions apart?
-    Cother, _ = tcorr.unnormalised(A, not even)
+    Cother, _ = unnormalised(A, not even)
     other = Cother / Cother[0] if Cother[0] != 0 else np.full(T, np.inf)
     discr = bool(T >= 3 and np.max(np.abs(other - want)) > 1e-6)
-    tags = [case["rank"], "complex" if case["cplx"] else "real", f"T{T}", "even" if even else "uneven",
-            "pattern-" + case["pattern"], f"N{A.shape[1]}", "t0=0" if ts[0] == 0 else "t0>0",
+    tags = [case["rank"], "complex" if case["cplx"] else "real",
+            f"T{T}" if T <= 40 else "T41-128" if T <= 128 else "T129-256" if T <= 256 else "T257+",
+            "even" if even else "uneven",
+            "pattern-" + case["pattern"], f"N{A.shape[1]}" if A.shape[1] <= 6 else "N7-31" if A.shape[1] < 32 else "N32-127" if A.shape[1] < 128 else
+            "N128-511" if A.shape[1] < 512 else "N512+", "t0=0" if ts[0] == 0 else "t0>0",
             "dt-default" if case["dt"] is None else "dt-given", "C0>0" if C[0] > 0 else "C0<0"]
     if case["rank"] != "scalar":
         tags.append(f"d{A.shape[2]}")
+        tags.append("d-odd" if A.shape[2] % 2 else "d-even")
     if case["tkind"]:
         tags.append("tensor-" + case["tkind"])
     if case["outfile"]:
@@ -544,6 +769,11 @@ def check_series(case):
         tags.append("no-file:outputfile-empty-string" if case["outfile"] == "" else "no-file:outputfile-omitted")
     if case.get("long"):
         tags.append("T5-12" if T <= 12 else "T13-24" if T <= 24 else "T25-40")
+    if "ts_repr" in case:
+        tags += ["timestep-type-" + case["ts_repr"], "dt-type-" + type(case["dt"]).__name__,
+                 "monotonic" if all(b > a for a, b in zip(ts[:-1], ts[1:])) else "non-monotonic",
+                 "T-odd" if T % 2 else "T-even"]
+    tags += list(case.get("more_tags", ()))
     if discr:
         tags.append("discriminates-origin-rule")
     if np.any(want > 1.0 + 1e-9):
@@ -575,6 +805,31 @@ def check_phase(case):
     T = len(ts)
     tags = [case["rank"], case["spacing"], f"T{T}", "phi<0" if case["phi"] < 0 else "phi>0"]
     return {"nontrivial": bool(T >= 3 and np.max(np.abs(want - 1.0)) > 1e-3), "tags": tags}
+
+
+def check_large(case):
+    A = _large_series(case)
+    nterms = int(np.prod(A.shape[1:]))
+    T = A.shape[0]
+    # n products + n - 1 additions per frame pair, T - k origins, in the library AND in the reference: first-order bound
+    # (n + T + 6) eps S_k each; 1e-13 is the floor used for the small facets
+    factor = max(1e-13, 2.0 * (nterms + T + 6) * EPS)
+    case = dict(case, more_tags=["values-" + case["values"],
+                                 "terms<512" if nterms < 512 else "terms512-4095" if nterms < 4096 else "terms4096+"])
+    return check_series(case, A=A, unnormalised=tcorr.gram_unnormalised, factor=factor)
+
+
+def describe_large(case):
+    return {k: case[k] for k in ("rank", "cplx", "T", "N", "d", "seed", "values", "tkind", "pattern", "dt")} | {
+        "ts": case["ts"][:6]}
+
+
+def describe_form(case):
+    d = describe(case)
+    d["ts_repr"] = case["ts_repr"]
+    d["dt"] = repr(case["dt"])
+    d["pattern"] = case["pattern"]
+    return d
 
 
 def _single(dtype):
@@ -752,6 +1007,19 @@ FACETS = [
           rule="T 5..40, N 1..4: pow2-times, pow2-gaps, log-blocks, linear-then-log, logfreq, even-except-last / "
                "-first / -one-middle, two-rates, alternating-gaps, even; first timestep up to 5e9; evenness decided by "
                "the reference from the statement (all successive differences equal); non-trivial as in RULE"),
+    Facet("argument_forms", form_case(), check_series, quick=900, thorough=30000, describe=describe_form,
+          shards_quick=2,
+          rule="T 1..10, N 1..5: snapshot.timestep as Python int / np.int64 / np.uint64 / np.int32, dt omitted / Python "
+               "int / np.int64 / np.float64 / np.float32 / float; schedules: even, random uneven, endpoint-consistent "
+               "(uneven with last - first = (T-1) x first gap and first gap = last gap), restart (timesteps start again), "
+               "duplicate-frame, checkpoint-rewind; non-trivial as in RULE"),
+    Facet("large_sizes", large_case(), check_large, quick=360, thorough=4000, describe=describe_large,
+          shards_quick=3,
+          rule="scalar / vector: N 20..400, d 1..8, T 2..64 and 129..200; tensor: N 8..48, d 1..5, T 2..32; values "
+               "normal / uniform [0,1) / 1 +- 1 % / multiples of 1/8 from a drawn seed; Gram-matrix reference, tolerance "
+               "factor 2 (n + T + 6) eps; non-trivial as in RULE"),
+    Facet("deep_sizes", large_case(deep=True), check_large, quick=0, thorough=3000, describe=describe_large,
+          rule="thorough tier only: scalar / vector N up to 3000, T up to 400; tensor N up to 150, T up to 48"),
 ]
 
 MANIFEST = {
@@ -769,13 +1037,18 @@ MANIFEST = {
              "2, N = 1, 1-component vectors, 1x1 tensors, first timestep up to 1e12, dt 1e-15 .. 1e6, series constant "
              "in time (C = 1 at all lags), purely imaginary, scaled by 1e+-30. Realistic long schedules "
              "(long_schedules, T up to 40): powers of two, LAMMPS logarithmic blocks, logfreq, linear-then-log, even "
-             "except one gap (last / first / middle), two rates."),
-    "note": ("Trusted base: numpy einsum, pbt/ref/tcorr.py. Tensor product = trace of A(later).conj(A(earlier)). "
+             "except one gap (last / first / middle), two rates. Argument representations and schedules of frames "
+             "(argument_forms): timesteps as Python / np.int64 / np.uint64 / np.int32 integers, dt as int / numpy scalar / "
+             "omitted, uneven schedules whose end points and first / last gap look even, restarted / duplicated / rewound "
+             "frames (time axis relative to the first frame, exactly 0 there). Sizes of real use (large_sizes: N up to 400, "
+             "T up to 200, d up to 8; thorough tier deep_sizes: N up to 3000, T up to 400) against a Gram-matrix reference."),
+    "note": ("Trusted base: numpy einsum / matmul, pbt/ref/tcorr.py. Tensor product = trace of A(later).conj(A(earlier)). "
              "The lag-zero normaliser is kept bounded away from 0 by construction (general tensors with cancelling "
              "tr(A conj A) are symmetrised); its sign is free. dtype float64/complex128, plus float32/complex64 in "
              "repeat_calls at a single-precision tolerance (values exactly representable, the library may compute in "
-             "single precision). Lists, ints, bools and outputfile=None are outside the documented domain and not "
-             "generated. Evenly spaced = all successive integer timestep differences equal."),
+             "single precision). Lists, integer / bool series and outputfile=None are outside the documented domain and not "
+             "generated (an integer scalar series with uneven spacing raises in the routine). Evenly spaced = all "
+             "successive integer timestep differences equal."),
     "technique": ("property-based testing (Hypothesis): reference-model differential + closed-form oracle + "
                   "call-history (state carried between calls) differential"),
 }
